@@ -172,11 +172,18 @@ def configs(tier):
     # a non-zero interest-rate path: recorded interest must be what the account was credited
     add(N=3, M=0, sym_prices=True, reward_kind="RewardPnL", fees=True, concrete_grid=True, rate="sym", markup=0.01)
     if tier == "thorough":
-        for rk in ("RewardSimpleReturn", "RewardPnL", "RewardLogReturn", "LogReturn"):
-            add(N=4, M=0, sym_prices=True, reward_kind=rk, fees=True)
+        # measured: grids of 4 and two contracts with symbolic prices cost 10-100x more solver time
+        # per path (deeper rational functions) and did not finish in 90 minutes; the thorough tier
+        # therefore deepens the timeline (extra quote + latency for every reward class, delay,
+        # concrete-price grid of 4) rather than the price algebra
+        for rk in ("RewardSimpleReturn", "RewardPnL", "RewardLogReturn"):
             add(N=3, M=1, sym_prices=True, reward_kind=rk, latency="sym", free_kinds=["quote"], fees=True)
-        add(N=3, M=0, sym_prices=True, reward_kind="RewardSimpleReturn", two_contracts=True, fees=True)
         add(N=3, M=0, sym_prices=True, reward_kind="RewardSimpleReturn", delay=1, fees=True)
+        add(N=4, M=0, sym_prices=True, reward_kind="RewardSimpleReturn", fees=True)
+        add(N=4, M=0, sym_prices=True, reward_kind="RewardPnL", fees=True)
+        add(N=4, M=1, sym_prices=False, reward_kind="RewardSimpleReturn", latency="sym", free_kinds=["quote"], fees=True,
+            spread=2.0)
+        add(N=4, M=0, sym_prices=False, reward_kind="LogReturn", fees=True, spread=2.0, two_contracts=True)
     return out
 
 
@@ -194,7 +201,8 @@ ASSUMPTIONS = _A + ["quote prices symbolic with 0 < bid <= ask in [1e-3, 1e6]; a
                     "disagrees with the cash actually credited is caught; the interest formula itself is C06"]
 BOUNDS = {"quick": "grid of 3 timesteps (2 executions), one spot contract, fees, 4 reward classes; one config with a "
                    "symbolic latency and an extra quote",
-          "thorough": "grid of 4, two contracts, delay 1, latency + extra quote for every reward class"}
+          "thorough": "latency + extra quote for three reward classes, delay 1 (symbolic prices, grid of 3); grid of 4 and "
+                      "two contracts with concrete prices"}
 OUTSIDE = ["the pandas accessors TrackRecord.net_liquidation_value()/transaction_costs()/weights_*() (float64 frames "
            "cannot carry proxies)", "futures chains in an episode (C11)", "IEEE rounding"]
 STUBS = ["builtin float() shadowed in tradingenv.rewards by the identity on proxies",
